@@ -19,6 +19,12 @@ def fc_axiom(p):
     return Or(And(F == -1, no_crlf(p, N)), first_crlf(F, p))
 
 
+def fc_def(a, b):
+    """definition of the ghost function fcrlf on [a, b] (triggered on occurrences of fcrlf(p))"""
+    p = z3.Int("p?fc")
+    return z3.ForAll([p], Implies(And(a <= p, p <= b), fc_axiom(p)), patterns=[fcrlf(p)])
+
+
 def errs(c):
     return c.ex.env.repo.live("gunicorn.http.errors")
 
@@ -202,3 +208,303 @@ class _C:
 
 def _p(L):
     return u_pos(_C(L), L.unreader, L.fentry) - L.fentry.obj(L.buf).content.length()
+
+
+# ======================================================================================================
+# parse_headers
+# ======================================================================================================
+from .cfgmodel import mk_cfg
+from pyvc import strops, regex
+from pyvc.values import in_class, all_chars, any_char, Win
+from pyvc.shapes import ConstShape
+
+TOKEN_CLASS = None
+
+
+def token_class(env):
+    """character class of an HTTP token, compiled from the LIVE gunicorn.http.message.TOKEN_RE"""
+    m = env.repo.live("gunicorn.http.message")
+    el = regex.compile_pattern(m.TOKEN_RE.pattern)
+    assert len(el) == 1 and el[0][0] == "rep" and not el[0][2]
+    return el[0][1]
+
+
+RFC_TOKEN = [(0x21, 0x21), (0x23, 0x27), (0x2a, 0x2b), (0x2d, 0x2e), (0x30, 0x39), (0x41, 0x5a), (0x5e, 0x7a), (0x7c, 0x7c),
+             (0x7e, 0x7e)]       # RFC 9110 5.6.2 tchar, written from the RFC (independent of the code's regex)
+OWS = [(9, 9), (32, 32)]
+
+
+def is_tchar(c):
+    return in_class(c, RFC_TOKEN)
+
+
+def Tsel(p):
+    return z3.Select(T, p)
+
+
+def header_fact_list(nlo, nhi, vlo, vhi, a, b):
+    """RFC 9112 field-line reading of the line that starts at nlo inside the header block T[a:b) (b is followed by CRLF):
+    name = T[nlo:nhi) is a token, T[nhi] == ':', value = T[vlo:vhi) is the rest of the line with OWS trimmed and
+    contains no NUL/CR/LF; the line ends at the first CRLF at/after nlo."""
+    q = qvar("q")
+    le = fcrlf(nlo)
+    rng = lambda lo, hi, pred: z3.ForAll([q], Implies(And(lo <= q, q < hi), pred(Tsel(q))))
+    return [
+        ("bounds", And(a <= nlo, nlo < nhi, nhi < le, le <= b)),
+        ("line-end", first_crlf(le, nlo)),
+        ("name-is-token", rng(nlo, nhi, is_tchar)),
+        ("colon-follows-name", Tsel(nhi) == 58),
+        ("value-bounds", And(nhi + 1 <= vlo, vlo <= vhi, vhi <= le)),
+        ("only-OWS-trimmed-left", rng(nhi + 1, vlo, lambda c: in_class(c, OWS))),
+        ("only-OWS-trimmed-right", rng(vhi, le, lambda c: in_class(c, OWS))),
+        ("value-has-no-NUL-CR-LF", rng(vlo, vhi, lambda c: And(c != 0, c != 13, c != 10))),
+    ]
+
+
+def header_facts(nlo, nhi, vlo, vhi, a, b):
+    return And(*[f for _, f in header_fact_list(nlo, nhi, vlo, vhi, a, b)])
+
+
+HDR_SHAPE = TupleShape([WinShape(T, True, ("upper",)), WinShape(T, True)])
+
+
+def hdr_windows(seq, j):
+    e = seq.elem(j)
+    n, v = e.items[0].single_win(), e.items[1].single_win()
+    return n.lo, n.hi, v.lo, v.hi
+
+
+def headers_wf(seq, a, b):
+    """all entries of the header list are RFC field-lines of the block, in stream order"""
+    j = qvar("j")
+    nlo = lambda k: hdr_windows(seq, k)[0]
+    return And(seq.lo == 0, seq.hi >= 0,
+               z3.ForAll([j], Implies(And(0 <= j, j < seq.hi), header_facts(*hdr_windows(seq, j), a, b))),
+               z3.ForAll([j], Implies(And(0 <= j, j < seq.hi - 1), nlo(j) < nlo(j + 1))))
+
+
+def mk_peer(st, kind):
+    if kind == "tcp":
+        return STuple([strops.fresh_str(st, "peer.host", True), SInt(fresh_int("peer.port"))])
+    return strops.fresh_str(st, "peer.unix", True)
+
+
+def allowed(c, st, cfg_field, peer):
+    """peer is in the allow list `cfg_field` ('*' wildcard, or not a TCP peer, or listed)"""
+    cfg = c.get("self.cfg", st)
+    lst = c.field(cfg, cfg_field, st)
+    ex = c.ex
+    star = ex.contains(lst, SStr.lit("*"), st)
+    if not isinstance(peer, STuple):
+        return TRUE
+    return Or(star, ex.contains(lst, peer.items[0], st))
+
+
+@contract("gunicorn.http.message:Message.parse_headers", props=("C01", "C06", "C08", "C12", "C15"))
+class ParseHeaders(Contract):
+    """preconditions exclude the documented-unsafe modes strip_header_spaces / permit_obsolete_folding"""
+
+    def cases(self, env):
+        out = []
+        for peer_kind in ("tcp", "unix"):
+            for trailer in (False, True):
+                st = base_state(env)
+                u = mk_unreader(env, st)
+                cfg = mk_cfg(env, st, strip_header_spaces=False, permit_obsolete_folding=False)
+                a, b = z3.Int("blk.lo"), z3.Int("blk.hi")
+                st.assume(0 <= a, a <= b, b + 2 <= N, crlf_at(b))
+                lrf, lrfs = z3.Int("self.limit_request_fields"), z3.Int("self.limit_request_field_size")
+                st.assume(1 <= lrf, lrf <= 32768, lrfs >= 0)
+                slf = mk_request_shell(env, st, u, cfg=cfg, peer_addr=mk_peer(st, peer_kind),
+                                       limit_request_fields=SInt(lrf), limit_request_field_size=SInt(lrfs),
+                                       scheme=enum_scheme(st))
+                out.append(("peer=%s,trailer=%s" % (peer_kind, trailer), st,
+                            {"self": slf, "data": twin(a, b), "from_trailer": SBool(trailer)}, {}))
+        return out
+
+    def blk(self, c):
+        tw = t_window(c.a["data"])
+        if tw is None:
+            return None
+        if tw[0] == "empty":
+            return None
+        return tw[1], tw[2]
+
+    def pre(self, c):
+        bl = self.blk(c)
+        if bl is None:
+            return [("data-is-a-positioned-stream-window", FALSE)]
+        a, b = bl
+        cfg = c.get("self.cfg")
+        o = c.st.obj(c.a["self"])
+        ex = c.ex
+        return [("block-is-followed-by-CRLF", And(0 <= a, a <= b, b + 2 <= N, crlf_at(b))),
+                ("unsafe:strip_header_spaces-off", Not(ex.truth(c.field(cfg, "strip_header_spaces"), c.st))),
+                ("unsafe:permit_obsolete_folding-off", Not(ex.truth(c.field(cfg, "permit_obsolete_folding"), c.st))),
+                ("limits-clamped", And(o.fields["limit_request_fields"].t >= 1, o.fields["limit_request_field_size"].t >= 0)),
+                ("ghost:fcrlf-definition", fc_def(a, b))]
+
+    def modifies(self, c):
+        return [("field", c.a["self"], "scheme")]
+
+    def result_shape(self, c):
+        return ListShape(HDR_SHAPE)
+
+    def raises(self, c):
+        E = errs(c)
+        return [(E.LimitRequestHeaders, None), (E.InvalidHeader, None), (E.InvalidHeaderName, None),
+                (E.ObsoleteFolding, None), (E.InvalidSchemeHeaders, None)]
+
+    def post(self, c):
+        a, b = self.blk(c)
+        res = c.st.obj(c.result)
+        o1, o0 = c.st.obj(c.a["self"]), c.old.obj(c.a["self"])
+        ex = c.ex
+        peer = o0.fields["peer_addr"]
+        scheme_changed = Not(ex.equal(o1.fields["scheme"], o0.fields["scheme"], c.st))
+        trust = And(Not(ex.truth(c.a["from_trailer"], c.st)), allowed(c, c.old, "forwarded_allow_ips", peer))
+        out = [("scheme-changes-only-for-trusted-peer", Implies(scheme_changed, trust)),
+               ("scheme-is-http-or-https", Or(ex.equal(o1.fields["scheme"], SStr.lit("http"), c.st),
+                                              ex.equal(o1.fields["scheme"], SStr.lit("https"), c.st)))]
+        if res.items is not None:
+            if res.items:
+                return out + [("result-shape", FALSE)]
+            return out
+        seq = res.sym
+        lrf = o0.fields["limit_request_fields"].t
+        lrfs = o0.fields["limit_request_field_size"].t
+        j = qvar("j")
+        nlo = lambda k: hdr_windows(seq, k)[0]
+        le = lambda k: fcrlf(nlo(k))
+        cfg = c.get("self.cfg", c.old)
+        hm = c.field(cfg, "header_map", c.old)
+        fwd = c.field(cfg, "forwarder_headers", c.old)
+        star = ex.contains(fwd, SStr.lit("*"), c.old)
+        und = lambda k: z3.Exists([j], And(nlo(k) <= j, j < hdr_windows(seq, k)[1], Tsel(j) == 95))
+        k = qvar("k")
+        return out + [("hdr:" + nm, _each(seq, a, b, i)) for i, (nm, _f) in enumerate(
+            header_fact_list(iv(0), iv(0), iv(0), iv(0), a, b))] + [
+            ("headers-in-stream-order", And(seq.lo == 0, seq.hi >= 0, _ordered(seq))),
+            ("field-count-within-limit", seq.hi <= lrf),
+            ("underscore-names-only-when-privileged-or-dangerous",
+             z3.ForAll([k], Implies(And(0 <= k, k < seq.hi, _has_underscore(seq, k)),
+                                    Or(ex.equal(hm, SStr.lit("dangerous"), c.old),
+                                       And(trust, Or(star, ex.contains(fwd, seq.elem(k).items[0], c.old))))))),
+        ]
+
+    loops = {0: dict(anchor="while lines", types={"headers": ListShape(HDR_SHAPE)}, cands=[
+        ("lines-view-fixed", lambda L: _lines_fixed(L)),
+        ("headers.lo==0", lambda L: _hdrs(L, lambda seq, a, b: And(seq.lo == 0, seq.hi >= 0))),
+        ("headers-in-order", lambda L: _hdrs(L, lambda seq, a, b: _ordered(seq))),
+        ("count<=limit", lambda L: _hdrs(L, lambda seq, a, b: seq.hi <= L.fentry.obj(L.self).fields["limit_request_fields"].t)),
+    ] + [("hdr:" + nm, (lambda k: (lambda L: _hdrs(L, lambda seq, a, b: _each(seq, a, b, k))))(k))
+         for k, nm in enumerate(["bounds", "line-end", "name-is-token", "colon-follows-name", "value-bounds",
+                                 "only-OWS-trimmed-left", "only-OWS-trimmed-right", "value-has-no-NUL-CR-LF"])] + [
+        ("headers-before-current-line", lambda L: _hdrs(L, lambda seq, a, b: _before(L, seq))),
+        ("count<=consumed", lambda L: _hdrs(L, lambda seq, a, b: seq.hi <= _lines(L).lo)),
+        ("underscore-policy", lambda L: _hdrs(L, lambda seq, a, b: _upolicy(L, seq))),
+        ("scheme-trusted", lambda L: _scheme_inv(L)),
+        ("scheme-http(s)", lambda L: Or(L.ex.equal(L.st.obj(L.self).fields["scheme"], SStr.lit("http"), L.st),
+                                        L.ex.equal(L.st.obj(L.self).fields["scheme"], SStr.lit("https"), L.st))),
+    ])}
+
+
+def _ordered(seq):
+    j = qvar("j")
+    return z3.ForAll([j], Implies(And(0 <= j, j < seq.hi - 1), hdr_windows(seq, j)[0] < hdr_windows(seq, j + 1)[0]))
+
+
+def _each(seq, a, b, k):
+    j = qvar("j")
+    return z3.ForAll([j], Implies(And(0 <= j, j < seq.hi), header_fact_list(*hdr_windows(seq, j), a, b)[k][1]))
+
+
+def enum_scheme(st):
+    from .cfgmodel import enum_str
+    return enum_str(st, "self.scheme", ["http", "https"])
+
+
+def _has_underscore(seq, k):
+    q = qvar("q")
+    nlo, nhi = hdr_windows(seq, k)[0], hdr_windows(seq, k)[1]
+    return z3.Exists([q], And(nlo <= q, q < nhi, Tsel(q) == 95))
+
+
+def _lines(L):
+    o = L.st.obj(L.lines)
+    if o.sym is None:
+        raise KeyError("lines is concrete")
+    return o.sym
+
+
+def _lines_fixed(L):
+    cur, ent = _lines(L), L.entry.obj(L.lines).sym
+    return And(cur.hi == ent.hi, cur.lo >= ent.lo, cur.lo <= cur.hi, *[x == y for x, y in zip(cur.arrays, ent.arrays)])
+
+
+def _blk(L):
+    tw = t_window(L.fentry.locals["data"])
+    return tw[1], tw[2]
+
+
+def _hdrs(L, f):
+    o = L.st.obj(L.headers)
+    a, b = _blk(L)
+    if o.sym is None:
+        if o.items:
+            raise KeyError("concrete non-empty")
+        return TRUE
+    return f(o.sym, a, b)
+
+
+def _before(L, seq):
+    """every collected header starts before the next unread line"""
+    lines = _lines(L)
+    j = qvar("j")
+    nxt = If(lines.lo < lines.hi, lines.elem(lines.lo).single_win().lo, _blk(L)[1] + 2)
+    return z3.ForAll([j], Implies(And(0 <= j, j < seq.hi), fcrlf(hdr_windows(seq, j)[0]) + 2 <= nxt))
+
+
+def _sizes(L, seq):
+    lrfs = L.fentry.obj(L.self).fields["limit_request_field_size"].t
+    k = qvar("k")
+    return Implies(lrfs > 0, z3.ForAll([k], Implies(And(0 <= k, k < seq.hi),
+                                                   fcrlf(hdr_windows(seq, k)[0]) + 2 - hdr_windows(seq, k)[0] <= lrfs)))
+
+
+def _trust(L):
+    ex = L.ex
+    o0 = L.fentry.obj(L.self)
+    peer = o0.fields["peer_addr"]
+    cfg = o0.fields["cfg"]
+    lst = L.fentry.obj(cfg).fields.get("forwarded_allow_ips")
+    if lst is None:
+        raise KeyError("cfg.forwarded_allow_ips not read yet")
+    star = ex.contains(lst, SStr.lit("*"), L.st)
+    listed = TRUE if not isinstance(peer, STuple) else Or(star, ex.contains(lst, peer.items[0], L.st))
+    return And(Not(ex.truth(L.fentry.locals["from_trailer"], L.st)), listed)
+
+
+def _scheme_inv(L):
+    ex = L.ex
+    changed = Not(ex.equal(L.st.obj(L.self).fields["scheme"], L.fentry.obj(L.self).fields["scheme"], L.st))
+    return Implies(changed, _trust(L))
+
+
+def _upolicy(L, seq):
+    ex = L.ex
+    cfg = L.st.obj(L.st.obj(L.self).fields["cfg"])
+    hm = cfg.fields.get("header_map")
+    fwd = cfg.fields.get("forwarder_headers")
+    k = qvar("k")
+    if hm is None:
+        # header_map not read so far: no underscore header can have been kept unprivileged
+        dangerous = FALSE
+    else:
+        dangerous = ex.equal(hm, SStr.lit("dangerous"), L.st)
+    if fwd is None:
+        priv = lambda k: FALSE
+    else:
+        star = ex.contains(fwd, SStr.lit("*"), L.st)
+        priv = lambda k: And(_trust(L), Or(star, ex.contains(fwd, seq.elem(k).items[0], L.st)))
+    return z3.ForAll([k], Implies(And(0 <= k, k < seq.hi, _has_underscore(seq, k)), Or(dangerous, priv(k))))
